@@ -82,7 +82,7 @@ class RZILTransformer(Transformer):
 
         self.arch = arch
         self.sub_routines: dict[str:SubRoutine] = (
-            dict() if not sub_routines else sub_routines
+            dict() if sub_routines is None else sub_routines
         )
         self.macros: dict[str:Macro] = dict() if not macros else macros
 
